@@ -54,6 +54,7 @@ var (
 	ErrAmfInvalidType = errors.New("lal.rtmp: invalid amf0 type")
 	ErrAmfTooShort    = errors.New("lal.rtmp: too short to unmarshal amf0 data")
 	ErrAmfNotExist    = errors.New("lal.rtmp: not exist")
+	ErrAmfTooDeep     = errors.New("lal.rtmp: amf0 data nested too deep")
 
 	ErrRtmpShortBuffer   = errors.New("lal.rtmp: buffer too short")
 	ErrRtmpUnexpectedMsg = errors.New("lal.rtmp: unexpected msg")
